@@ -11,6 +11,7 @@ import (
 	"hash/fnv"
 	"os"
 	"os/exec"
+	"runtime/pprof"
 	"sort"
 	"time"
 
@@ -71,6 +72,13 @@ func main() {
 	minBudget := flag.Int("minbudget", 400, "maximal number of minimisation candidates")
 	flag.Parse()
 
+	if pf := os.Getenv("DSIM_CPUPROFILE"); pf != "" {
+		f, err := os.Create(pf)
+		if err == nil {
+			pprof.StartCPUProfile(f)
+			defer pprof.StopCPUProfile()
+		}
+	}
 	if err := sim.CheckLayout(); err != nil {
 		fmt.Fprintln(os.Stderr, "worker:", err)
 		os.Exit(2)
